@@ -25,6 +25,17 @@ IR2JSON = os.path.join(VERIF, "bin", "ir2json")
 NPROC = int(os.environ.get("VERIF_JOBS", "16"))
 
 UNIT_FLOOR = {"asm": 153, "c": 77}
+FRESH_DEFAULT = False      # set by the thorough tier: ignore the object cache
+_FRESH_DIRS = set()
+
+
+def _cleanup_fresh():
+    for d in list(_FRESH_DIRS):
+        shutil.rmtree(d, ignore_errors=True)
+
+
+import atexit
+atexit.register(_cleanup_fresh)
 
 
 class AnalysisBroken(Exception):
@@ -213,7 +224,7 @@ def _build_unit(u, key, variant):
         raise
 
 
-def _prune(max_age_s=3 * 86400, max_entries=1500):
+def _prune(max_age_s=86400, max_entries=900):
     ud = os.path.join(CACHE, "u")
     try:
         ents = [(os.stat(os.path.join(ud, e)).st_mtime, e) for e in os.listdir(ud)]
@@ -239,6 +250,7 @@ def build(config="default", only=None, fresh=False, extra_make_args=(), variant_
     """Build (or fetch from cache) every unit of `config`.  Returns (units, stats).
     only: optional predicate on unit dict.  fresh: ignore the cache (thorough tier)."""
     ensure_tools()
+    fresh = fresh or FRESH_DEFAULT
     os.makedirs(os.path.join(CACHE, "u"), exist_ok=True)
     os.makedirs(os.path.join(CACHE, "tmp"), exist_ok=True)
     t0 = time.time()
@@ -280,6 +292,8 @@ def build(config="default", only=None, fresh=False, extra_make_args=(), variant_
         lock.close()
     for u, a in zip(units, results):
         u.update(a)
+        if "|fresh" in variant:
+            _FRESH_DIRS.add(os.path.dirname(a["obj"]))
     stats = {"config": config, "units": len(units), "asm_units": sum(1 for u in units if u["kind"] == "asm"),
              "c_units": sum(1 for u in units if u["kind"] == "c"), "rebuilt": len(missing), "build_wall_s": round(time.time() - t0, 2)}
     return units, stats
